@@ -401,13 +401,13 @@ impl PartitionStorage for FilePartitionStorage {
                     )
                 })
                 .map_err(|_| IggyError::CannotReadFile)?;
-            let offset = file
-                .read_u64_le()
-                .await
-                .with_error_context(|error| {
-                    format!("{COMPONENT} (error: {error}) - failed to read consumer offset from file, path: {path}")
-                })
-                .map_err(|_| IggyError::CannotReadFile)?;
+            // An offset file cut short by a crash during its rewrite holds no offset: skip it, do not
+            // fail the load of the whole partition.
+            let Ok(offset) = file.read_u64_le().await.with_error_context(|error| {
+                format!("{COMPONENT} (error: {error}) - failed to read consumer offset from file, path: {path}")
+            }) else {
+                continue;
+            };
 
             consumer_offsets.push(ConsumerOffset {
                 kind,
